@@ -312,8 +312,29 @@ def mps_tree(r, big=False):
         objname = objrow
     elif k < .3 and extra_n:
         objname = extra_n[0]
+    # SOS sets (marker lines around groups of columns) and a REFROW section: they restrict integer solutions only, the LP is unchanged
+    sos, refrow = [], ""
+    if len(cols) >= 2 and r.random() < .2:
+        a = r.randrange(len(cols) - 1)
+        b = r.randint(a + 1, len(cols) - 1)
+        sos.append(dict(a=a, b=b, t=r.choice(["S1", "S2"])))
+        if b + 2 < len(cols) and r.random() < .4:
+            sos.append(dict(a=b + 1, b=len(cols) - 1, t=r.choice(["S1", "S2"])))
+        if r.random() < .4:
+            refrow = r.choice(rows)["name"]
+        # rules of the reader (rawlp.c ILLcheck_rawlpdata): members are not integer variables; inside a set the weights -
+        # the members' coefficients in the REFROW row - are pairwise different
+        members = [k for d in sos for k in range(d["a"], d["b"] + 1)]
+        intb = {b["col"] for b in bounds if b["t"] in ("BV", "LI", "UI")}
+        for w, k in enumerate(members):
+            entries[k]["integer"] = False
+            if refrow:
+                entries[k]["ent"] = [e for e in entries[k]["ent"] if e["row"] != refrow] + [dict(row=refrow, val=chars(str(w + 1 + r.randint(0, 0))))]
+        bounds = [b for b in bounds if not (b["col"] in {entries[k]["col"] for k in members} and b["t"] in ("BV", "LI", "UI"))]
+    elif r.random() < .1:
+        refrow = r.choice(rows)["name"]           # a REFROW section without SOS sets is legal and means nothing
     return dict(name="GENMPS", objsense=r.choice(["", "MAX", "MIN", "MAXIMIZE", "MINIMIZE"]), objname=objname, objrow=objrow, nrows=extra_n, rows=rows, cols=entries,
-                rhs=rhs, ranges=ranges, bounds=bounds)
+                rhs=rhs, ranges=ranges, bounds=bounds, sos=sos, refrow=refrow)
 
 
 def render_mps(tree, r):
@@ -326,6 +347,8 @@ def render_mps(tree, r):
         out.append("OBJSENSE\n" + sp() + (tree["objsense"] if r.random() < .5 else (tree["objsense"].lower() if r.random() < .5 else tree["objsense"].capitalize())) + "\n")
     if tree.get("objname"):
         out.append("OBJNAME\n" + sp() + tree["objname"] + "\n")
+    if tree.get("refrow"):
+        out.append("REFROW\n" + sp() + tree["refrow"] + "\n")
     out.append("ROWS\n")
     out.append(sp() + "N" + sp() + tree["objrow"] + "\n")
     for rw in tree["rows"]:
@@ -335,7 +358,12 @@ def render_mps(tree, r):
     out.append("COLUMNS\n")
     inint = False
     mk = 0
-    for c in tree["cols"]:
+    sos_open = {d["a"]: d for d in tree.get("sos", [])}
+    sos_close = {d["b"] for d in tree.get("sos", [])}
+    for ci, c in enumerate(tree["cols"]):
+        if ci in sos_open:
+            mk += 1
+            out.append(sp() + sos_open[ci]["t"] + sp() + "SOS%d" % mk + sp() + "'MARKER'" + sp() + "'SOSORG'" + "\n")
         if c["integer"] != inint:
             mk += 1
             out.append(sp() + "M%d" % mk + sp() + "'MARKER'" + sp() + ("'INTORG'" if c["integer"] else "'INTEND'") + "\n")
@@ -352,6 +380,9 @@ def render_mps(tree, r):
             i += 1
         if r.random() < .1:
             out.append("* a comment line\n")
+        if ci in sos_close:
+            mk += 1
+            out.append(sp() + "SOS%d" % mk + sp() + "'MARKER'" + sp() + "'SOSEND'" + "\n")
     if inint:
         out.append(sp() + "MEND" + sp() + "'MARKER'" + sp() + "'INTEND'" + "\n")
     if tree["rhs"]:
@@ -467,7 +498,12 @@ def rt_lp(r, big=False):
                 j, v = lp["A"][i][-1]
                 lp["A"][i][-1] = (j, F(r.getrandbits(20000) + 1, r.getrandbits(19900) + 1))
             lp["rhs"][r.randrange(lp["m"])] += F(1, r.getrandbits(15000) + 2)
-    # long expressions that wrap lines: widen a row with many columns of long names
+    # names made of every character the LP format allows in a name (no repair needed): % ! # $ & ( ) / , ; ? @ _ ` ' { } | ~ "
+    if r.random() < .25:
+        odd = ["x%d", "p%s_", "a%%b", "q#", "n~", "m|x", "{k}", "u$", "w&w", "t(1)", "s/2", "c,c", "d;d", "e?", "f@", "g`", "h'", "i!", "j_%n", "Z\"q\""]
+        lp["cname"] = ["%s%d" % (r.choice(odd), j) for j in range(lp["n"])]
+        if r.random() < .5:
+            lp["rname"] = ["%s%d" % (r.choice(odd), i) for i in range(lp["m"])]
     return lp
 
 
